@@ -148,7 +148,40 @@ def run(rep, tier, seed, replay=None):
                     cases.append(f"{d['id']}_{k}dx dispatch {d['id']} {'-' if j % 2 else d['port'] + j} {r} {extra} "
                                  + " ".join([base.fmt_script()] + base.opts))
         rep.count("game:" + ("with-module" if has_module else "definition-only"))
+    # ---- the caller's retry count must reach the protocol on the generic path as it does on the protocol's own entry:
+    # an exchange whose first attempt is lost (the family's own fault builder, vector "SV" / "SSV") through `dispatch`
+    # with retries 1 / 2, compared with the protocol's entry on the same script
+    import importlib
+    from props import dispatch_cases
+    retry_pairs = []
+    for fam in dispatch_cases.ARMS:
+        if fam not in netprops.FAMILIES:
+            continue
+        fmod = importlib.import_module("props.families." + fam)
+        if not hasattr(fmod, "c10_build"):
+            continue
+        el = [v for v in netprops.valid_cases(fam, seed + 14, 60 if tier == "quick" else 300) if fmod.c10_eligible(v)]
+        for bi, v in enumerate(el[: (3 if tier == "quick" else 20)]):
+            for vec, r in (("SV", 1), ("SSV", 2), ("FV", 1)):
+                unit = fmod.c10_units(v)[0]
+                pid_ = f"{v.id}r{r}{vec}"
+                pline = fmod.c10_build(v, unit, vec, r, pid_ + "p")
+                c = netcases.Case(pline, netprops.FAMILIES[fam]["nargs"])
+                dline = dispatch_cases.retarget(fam, c, pid_ + "d", k=1)
+                if dline is None:
+                    continue
+                cases += [pline, dline]
+                retry_pairs.append((fam, pline, dline))
+                rep.count("retry-through-dispatch:" + fam)
     model, impl, panics = vlib.correspond(rep, netprops.corpus("C14") + cases, oracle=netprops.crash_oracle, trivial=netprops.trivial, tag="c14")
+    for fam, pline, dline in retry_pairs:
+        po, do = impl.get(pline.split(" ", 1)[0], ""), impl.get(dline.split(" ", 1)[0], "")
+        pr, dr = vlib.result_of(po), vlib.result_of(do)
+        ps, dsn = [(p, d) for (_, p, d, _) in vlib.sends_of(po)], [(p, d) for (_, p, d, _) in vlib.sends_of(do)]
+        if pr.split(" ")[0] != dr.split(" ")[0] or ps != dsn:
+            rep.oracle_failures.append((f"paths-differ:generic-vs-protocol:{dline.split(' ')[2]}:retries",
+                                        f"first attempt lost, retries given: protocol entry {pr[:120]} with {len(ps)} requests, generic path {dr[:120]} with {len(dsn)} requests",
+                                        dline, do[:300]))
     # battalion module lines: implementation only
     extra = [g["module"] for g in groups if g["module"] and g["id"] == "battalion1944"]
     eimpl, _ = vlib.run_impl(extra, tag="c14b") if extra else ({}, {})
